@@ -206,6 +206,13 @@ def mergeModel {α} (segs : List (Segment α)) : Segment α :=
     alive := List.replicate tbl.length true
     terms := (mergedTerms segs).map fun t => (t.1, t.2.2) }
 
+/-- `segment.meta().num_docs() > 0` -/
+def hasLive {α} (s : Segment α) : Bool := decide (0 < s.alive.count true)
+
+/-- mirrors: src/indexer/merger.rs::IndexMerger::open_with_custom_alive_set — only the sources
+that still hold a live document become readers of the merge -/
+def mergeReaders {α} (segs : List (Segment α)) : List (Segment α) := segs.filter hasLive
+
 /-! ### well-formedness of a physical segment -/
 
 /-- strictly increasing doc ids below `n` -/
